@@ -701,6 +701,23 @@ def err_enum(e):
     return name
 
 
+def _py_slots(entry):
+    """the `slots=` argument of Component.render: plain strings, or (entry["slot_mode"]) `Slot` objects — nameless, or
+    already carrying the name of *another* slot / component (a slot forwarded from elsewhere)"""
+    mode = entry.get("slot_mode")
+    if not mode:
+        return {k: s for k, s in entry["slots"]}
+    from django_components.slots import Slot
+    out = {}
+    for k, s in entry["slots"]:
+        fn = (lambda ctx, data, ref, s=s: s)
+        if mode == "slotobj":
+            out[k] = Slot(fn)
+        else:
+            out[k] = Slot(fn, component_name="Elsewhere", slot_name=("title" if k != "title" else "footer"))
+    return out
+
+
 def run_real(prog, keep=None, census_clear=True, entry=None, limit=10.0, reset_ids=True):
     """one render of the real code; returns dict(out=str|None, err=enum|None, events, residue, exc)"""
     from django.template import Context, Template
@@ -738,7 +755,7 @@ def run_real(prog, keep=None, census_clear=True, entry=None, limit=10.0, reset_i
                   res["out"] = str(cls.render(
                       context={k: pyval(v) for k, v in prog["ctx"]},
                       kwargs={k: pyval(v) for k, v in entry["kwargs"]},
-                      slots={k: s for k, s in entry["slots"]},
+                      slots=_py_slots(entry),
                       render_dependencies=False))
         except Exception as e:  # noqa
             res["err"] = err_enum(e)
